@@ -476,3 +476,56 @@ def run(repo: Repo, rep: Report) -> None:  # noqa: F811
         marks_all = any(isinstance(l, (ast.For,)) and var in norm(l.iter) and any(isinstance(a, ast.Assign) and "__serialized[" in norm(a.targets[0]) and norm(l.target) in norm(a.targets[0]) for a in ast.walk(l)) for l in ast.walk(guard))
         rep.ob("C03.j-prettyxml-collection-validator", rx, "PrettyXMLSerializer.predicate", "every cell of the chain is marked written", marks_all,
                "" if marks_all else "only the head cell is marked: the remaining cells are written again as top-level descriptions (extra triples after parsing)", node=guard)
+
+
+_run_base2 = run
+
+
+def run(repo: Repo, rep: Report) -> None:  # noqa: F811
+    _run_base2(repo, rep)
+    # ------------------------------------------------------------------ (l)
+    rep.rule("C03.l-xmlwriter-raw-text-has-no-carriage-return",
+             "XMLWriter.text (used by pretty-xml and TriX) writes text either escaped - escape(text, {'\\r': '&#13;'}) - or raw inside CDATA. CDATA cannot carry a character reference, "
+             "and XML line-end normalisation turns a raw CR (and CR LF) into LF, so the raw branch is taken only under a test that the text contains no CR", floor=1)
+    xw = repo.mod("rdflib.plugins.serializers.xmlwriter")
+    tf = xw.func("XMLWriter.text")
+    tparam = tf.args.args[1].arg
+    raws = [c for c in own_nodes(tf) if isinstance(c, ast.Call) and norm(c.func).endswith("stream.write") and c.args and norm(c.args[0]) == tparam]
+    if not raws:
+        rep.ob("C03.l-xmlwriter-raw-text-has-no-carriage-return", xw, "XMLWriter.text", "no raw write of the text", True, "always escaped", node=tf)
+    for c in raws:
+        guarded = False
+        child = c
+        for p_ in xw.parents(c):
+            if isinstance(p_, ast.If) and any(child is x or any(child is y for y in ast.walk(x)) for x in p_.body):
+                for t in ast.walk(p_.test):
+                    if isinstance(t, ast.Compare) and isinstance(t.ops[0], ast.NotIn) and isinstance(t.left, ast.Constant) and t.left.value == "\r" and norm(t.comparators[0]) == tparam:
+                        guarded = True
+            if p_ is tf:
+                break
+            child = p_
+        rep.ob("C03.l-xmlwriter-raw-text-has-no-carriage-return", xw, "XMLWriter.text", c, guarded,
+               "only for text without CR" if guarded else "text containing `<`, `>` and a carriage return is written raw inside CDATA: Literal('a<b>\\rc') is read back as 'a<b>\\nc'", node=c)
+
+    # ------------------------------------------------------------------ (m)
+    rep.rule("C03.m-serialize-starts-from-reset-state",
+             "serialize() of every recursive Turtle-family serializer (turtle, n3 via turtle, trig, longturtle) calls self.reset() before it preprocesses: the done-set, reference "
+             "counts and namespace table of a previous run on the same serializer object would otherwise make the second document come out without its statements", floor=3)
+    for modname, cname in (("rdflib.plugins.serializers.turtle", "TurtleSerializer"), ("rdflib.plugins.serializers.trig", "TrigSerializer"), ("rdflib.plugins.serializers.longturtle", "LongTurtleSerializer")):
+        mod = repo.mod(modname)
+        f = mod.func(cname + ".serialize")
+        resets = [c for c in own_nodes(f) if isinstance(c, ast.Call) and norm(c.func) == "self.reset"]
+        pre = [c for c in own_nodes(f) if isinstance(c, ast.Call) and norm(c.func) in ("self.preprocess", "self.startDocument")]
+        ok = bool(resets) and (not pre or min(r.lineno for r in resets) < min(p_.lineno for p_ in pre))
+        rep.ob("C03.m-serialize-starts-from-reset-state", mod, cname + ".serialize", resets[0] if resets else "self.reset() before preprocess()", ok,
+               "" if ok else "serialize() does not reset the per-run state: a second serialize() on the same serializer object finds every subject `done` and writes only the prefix header", node=resets[0] if resets else f)
+
+    # ------------------------------------------------------------------ (i, continued): the cell's properties are compared unfiltered
+    for modname, cname in (("rdflib.plugins.serializers.turtle", "TurtleSerializer"), ("rdflib.plugins.serializers.longturtle", "LongTurtleSerializer")):
+        mod = repo.mod(modname)
+        f = mod.func(cname + ".isValidList")
+        for n in own_nodes(f):
+            if isinstance(n, (ast.GeneratorExp, ast.ListComp, ast.SetComp)) and any("predicate_objects" in norm(g_.iter) for g_ in n.generators):
+                filtered = [norm(c) for g_ in n.generators for c in g_.ifs]
+                rep.ob("C03.i-turtle-collection-validator", mod, cname + ".isValidList", "all properties of a cell are compared (%s)" % norm(n)[:60], not filtered,
+                       "unfiltered" if not filtered else "the comparison skips properties matching `%s`: a cell carrying such a triple is still abbreviated to ( ... ) and the triple is dropped" % filtered[0], node=n)
